@@ -151,6 +151,28 @@ func vxCheckProof(n *ProofNode, store factstore.ReadOnlyFactStore, prog vxProg, 
 	vxAssert(vxSameAtom(vxAtomUnder(n.Rule.Head, n.Bindings), n.Fact), tag+":fact-is-rule-head-under-bindings")
 	k := 0
 	next := append(append([]ast.Atom(nil), ancestors...), n.Fact)
+	if n.Partial {
+		// a node flagged Partial was not fully expanded (a premise that is an ancestor is cut,
+		// negated premises and transforms are not expanded): the premises that are present must be
+		// body literals under the bindings, in body order; the (in)equalities must still hold
+		for _, lit := range n.Rule.Premises {
+			var want ast.Atom
+			switch p := lit.(type) {
+			case ast.Atom:
+				want = vxAtomUnder(p, n.Bindings)
+			case ast.NegAtom:
+				want = vxAtomUnder(p.Atom, n.Bindings)
+			default:
+				continue
+			}
+			if k < len(n.Premises) && vxSameAtom(want, n.Premises[k].Fact) {
+				vxCheckProof(n.Premises[k], store, prog, next, tag)
+				k++
+			}
+		}
+		vxAssert(k == len(n.Premises), tag+":partial-node-premises-are-body-literals-in-order")
+		return
+	}
 	for _, lit := range n.Rule.Premises {
 		switch p := lit.(type) {
 		case ast.Atom:
